@@ -909,3 +909,474 @@ Proof.
     + eapply (allwf_mstep okl s m s' out I A); eauto. intros a b ->. discriminate.
     + eapply (allwf_astep okl s ao s' out I AI); eauto. rewrite L. exact LEN.
 Qed.
+
+(** * Resetting every object leaks nothing *)
+Section Cleanup.
+  Variable ok : nat -> N -> bool.
+
+  (** one clean-up step empties slot [i] and touches no other slot *)
+  Lemma cleanup_step s i o :
+    inv s -> ainv s -> 2 * N.of_nat (length (objs s)) < 4294967296 ->
+    nth_error (objs s) i = Some o ->
+    exists c s' out x, cleanup_op s i = Some c /\ step ok false s c = Done s' out /\
+      objs s' = upd (objs s) i x /\ tgt i x = None.
+  Proof.
+    intros I A LEN E. unfold cleanup_op. rewrite E. unfold wfb. rewrite E.
+    assert (HK : has_kind s i (okind o) = true).
+    { unfold has_kind, kind_at. rewrite E. cbn. destruct (okind o); reflexivity. }
+    destruct (addr_eqb (gself (ogp o)) (ASlot i)) eqn:W.
+    - (* well-formed: reset *)
+      assert (W' : wf_obj i o = true) by exact W.
+      destruct (okind o) eqn:K.
+      + exists (OM (UReset i)). cbn [step]. unfold mstep. cbn [mdom]. rewrite HK. cbn [mexec].
+        destruct (unique_reset_pool_spec s i o I E K W') as (s' & R & _ & O' & _). rewrite R. cbn.
+        exists s', [], (uobj i o None None). split; auto. split; auto. split; auto. unfold tgt, wf_obj. cbn. rewrite Nat.eqb_refl. reflexivity.
+      + exists (OM (SReset i)). cbn [step]. unfold mstep. cbn [mdom]. rewrite HK. cbn [mexec].
+        destruct (shared_reset_spec s i o I E) as (s' & R & _ & O'); auto; [rewrite K; reflexivity|]. rewrite R. cbn.
+        exists s', [], (ptr_obj i o None). split; auto. split; auto. split; auto. apply tgt_ptr_obj.
+      + exists (OM (WReset i)). cbn [step]. unfold mstep. cbn [mdom]. rewrite HK. cbn [mexec].
+        destruct (weak_reset_spec None s i o I (or_introl eq_refl) E) as (s' & R & _ & O'); auto; try (rewrite K; discriminate).
+        rewrite R. cbn. exists s', [], (ptr_obj i o None). split; auto. split; auto. split; auto. apply tgt_ptr_obj.
+      + exists (OA (VReset i)). cbn [step]. unfold astep. cbn [adom]. rewrite HK. cbn [aexec].
+        destruct (array_reset_spec s i o I A E K W') as (s' & R & _ & _ & _ & O'). rewrite R. cbn.
+        exists s', [], (olo (ptr_obj i o None) 0 0). split; auto. split; auto. split; auto.
+        unfold tgt, wf_obj. cbn. rewrite Nat.eqb_refl. reflexivity.
+    - (* a stray copy: re-initialise *)
+      assert (DI : disposable s i = true) by (unfold disposable, wfb; rewrite E, W; reflexivity).
+      destruct (okind o) eqn:K.
+      + exists (OM (UInit i)). cbn [step]. unfold mstep. cbn [mdom]. rewrite HK, DI. cbn [andb mexec].
+        unfold unique_init, wr_up. rewrite E. cbn [ugp uclr]. do 3 eexists. split; [reflexivity|]. split; [reflexivity|].
+        split; [reflexivity|]. unfold tgt, wf_obj. cbn. rewrite Nat.eqb_refl. reflexivity.
+      + exists (OM (SInit i)). cbn [step]. unfold mstep. cbn [mdom]. rewrite HK, DI. cbn [andb mexec].
+        unfold obj_reinit. rewrite E. do 3 eexists. split; [reflexivity|]. split; [reflexivity|].
+        split; [reflexivity|]. unfold tgt, wf_obj. cbn. rewrite Nat.eqb_refl. reflexivity.
+      + exists (OM (WInit i)). cbn [step]. unfold mstep. cbn [mdom]. rewrite HK, DI. cbn [andb mexec].
+        unfold obj_reinit. rewrite E. do 3 eexists. split; [reflexivity|]. split; [reflexivity|].
+        split; [reflexivity|]. unfold tgt, wf_obj. cbn. rewrite Nat.eqb_refl. reflexivity.
+      + exists (OA (VInit i)). cbn [step]. unfold astep. cbn [adom]. rewrite HK, DI. cbn [andb aexec].
+        unfold obj_reinit. rewrite E. do 3 eexists. split; [reflexivity|]. split; [reflexivity|].
+        split; [reflexivity|]. unfold tgt, wf_obj. cbn. rewrite Nat.eqb_refl. reflexivity.
+  Qed.
+
+  Lemma cleanup_from_spec n : forall i s,
+    inv s -> ainv s -> 2 * N.of_nat (length (objs s)) < 4294967296 ->
+    (i + n = length (objs s))%nat ->
+    (forall j o, (j < i)%nat -> nth_error (objs s) j = Some o -> tgt j o = None) ->
+    exists s', cleanup_from ok false n i s = Done s' [] /\ inv s' /\
+      forall j o, nth_error (objs s') j = Some o -> tgt j o = None.
+  Proof.
+    induction n as [|n IH]; intros i s I A LEN L P.
+    - exists s. split; auto. split; auto. intros j o E. apply (P j o); auto.
+      assert (j < length (objs s))%nat by (apply nth_error_Some; congruence). lia.
+    - cbn [cleanup_from].
+      destruct (nth_error (objs s) i) as [o|] eqn:E.
+      2:{ apply nth_error_None in E. lia. }
+      destruct (cleanup_step s i o I A LEN E) as (c & s1 & out & x & C & R & O1 & T). rewrite C, R.
+      pose proof (step_outcome ok s c I A LEN) as Q. rewrite R in Q. destruct Q as (I1 & A1 & L1 & _).
+      apply (IH (S i) s1); auto.
+      + rewrite L1. exact LEN.
+      + rewrite L1. lia.
+      + intros j oj Lj Ej. rewrite O1 in Ej. rewrite nth_error_upd in Ej. destruct (Nat.eqb_spec i j) as [->|N].
+        * destruct (Nat.ltb j (length (objs s))); [|discriminate]. congruence.
+        * apply (P j oj); auto. lia.
+  Qed.
+
+  (** the end-of-case clean-up of the harness: every object reset (stray
+      copies re-initialised); afterwards no block is live *)
+  Theorem cleanup_no_leak s :
+    inv s -> ainv s -> 2 * N.of_nat (length (objs s)) < 4294967296 ->
+    exists s', cleanup ok false s = Done s' [] /\ live (al s') = [].
+  Proof.
+    intros I A LEN. unfold cleanup.
+    destruct (cleanup_from_spec (length (objs s)) 0 s I A LEN) as (s' & R & I' & E); auto.
+    { intros j o Lj. lia. }
+    exists s'. split; auto. apply no_leak; auto.
+  Qed.
+End Cleanup.
+
+(** * Locality: a call depends on and changes only the slots it mentions *)
+(** the state with slot [x] overwritten by a fixed dummy object *)
+Definition dummy (x : nat) : obj := obj_init KS x.
+Definition blank (x : nat) (s : st) : st := set_objs s (upd (objs s) x (dummy x)).
+
+Definition rmap {A B} (f : A -> B) (r : res A) : res B :=
+  match r with Ok a => Ok (f a) | Ab => Ab | Flt => Flt end.
+
+Lemma blank_nth x s i : i <> x -> nth_error (objs (blank x s)) i = nth_error (objs s) i.
+Proof. intros N. unfold blank. cbn [objs set_objs]. apply nth_error_upd_other. auto. Qed.
+
+Lemma blank_rd_gp x s i : i <> x -> rd_gp (blank x s) i = rd_gp s i.
+Proof. intros N. unfold rd_gp. rewrite blank_nth; auto. Qed.
+
+Lemma blank_set_objs_upd x s i o : i <> x ->
+  set_objs (blank x s) (upd (objs (blank x s)) i o) = blank x (set_objs s (upd (objs s) i o)).
+Proof. intros N. unfold blank, set_objs. cbn [al objs datas descs exts log]. rewrite (upd_comm _ x i); auto. Qed.
+
+Lemma blank_wr_gp x s i g : i <> x -> wr_gp (blank x s) i g = blank x (wr_gp s i g).
+Proof.
+  intros N. unfold wr_gp. rewrite blank_nth by auto. destruct (nth_error (objs s) i); auto.
+  apply blank_set_objs_upd; auto.
+Qed.
+
+Definition mentions (x : nat) (a : addr) : Prop := a = ASlot x.
+
+Lemma blank_rd_up x s a : ~ mentions x a -> rd_up (blank x s) a = rd_up s a.
+Proof.
+  intros N. destruct a as [i|d]; unfold rd_up; auto. rewrite blank_nth; auto. intros ->. apply N. reflexivity.
+Qed.
+
+Lemma blank_wr_up x s a u : ~ mentions x a -> wr_up (blank x s) a u = blank x (wr_up s a u).
+Proof.
+  intros N. destruct a as [i|d]; unfold wr_up.
+  - assert (i <> x) by (intros ->; apply N; reflexivity). rewrite blank_nth by auto.
+    destruct (nth_error (objs s) i); auto. apply blank_set_objs_upd; auto.
+  - cbn [datas blank set_objs]. destruct (lookup d (datas s)); reflexivity.
+Qed.
+
+Lemma blank_rd_data x s d : rd_data (blank x s) d = rd_data s d.
+Proof. reflexivity. Qed.
+Lemma blank_wr_data x s d D : wr_data (blank x s) d D = blank x (wr_data s d D).
+Proof. reflexivity. Qed.
+Lemma blank_add_log x s e : add_log (blank x s) e = blank x (add_log s e).
+Proof. reflexivity. Qed.
+Lemma blank_do_free x s p : do_free (blank x s) p = blank x (do_free s p).
+Proof. destruct p; reflexivity. Qed.
+Lemma blank_do_malloc ok x s sz : do_malloc ok (blank x s) sz = (blank x (fst (do_malloc ok s sz)), snd (do_malloc ok s sz)).
+Proof. unfold do_malloc. cbn [al blank set_objs]. destruct (malloc ok (al s) sz). reflexivity. Qed.
+Lemma blank_do_malloc' ok x s sz s2 r : do_malloc ok s sz = (s2, r) -> do_malloc ok (blank x s) sz = (blank x s2, r).
+Proof. intros E. rewrite blank_do_malloc, E. reflexivity. Qed.
+Lemma blank_unique_init x s a : ~ mentions x a -> unique_init (blank x s) a = blank x (unique_init s a).
+Proof. intros N. unfold unique_init. apply blank_wr_up; auto. Qed.
+
+Lemma bind_rmap {A B C} (f : A -> B) (r : res A) (k : B -> res C) : bind (rmap f r) k = bind r (fun a => k (f a)).
+Proof. destruct r; reflexivity. Qed.
+
+Ltac bl :=
+  repeat first
+    [ rewrite blank_rd_gp by assumption
+    | rewrite blank_wr_gp by assumption
+    | rewrite blank_rd_up by assumption
+    | rewrite blank_wr_up by assumption
+    | rewrite blank_unique_init by assumption
+    | rewrite blank_rd_data
+    | rewrite blank_wr_data
+    | rewrite blank_add_log
+    | rewrite blank_do_free
+    | match goal with
+      | |- context [do_malloc ?ok (blank ?x ?s) ?sz] =>
+        let E := fresh "E" in destruct (do_malloc ok s sz) as (? & ?) eqn:E; rewrite (blank_do_malloc' ok x s sz _ _ E)
+      end
+    | rewrite bind_rmap
+    | progress cbn [bind rmap fst snd]
+    | match goal with
+      | |- context [if ?c then _ else _] => lazymatch c with context [blank] => fail | _ => destruct c eqn:? end
+      end
+    | match goal with
+      | |- context [match ?r with Some _ => _ | None => _ end] =>
+        lazymatch r with context [blank] => fail | context [bind] => fail | _ => destruct r eqn:? end
+      end
+    | match goal with
+      | |- context [let '(a, b) := ?e in _] => lazymatch e with context [blank] => fail | _ => destruct e as (? & ?) eqn:? end
+      end
+    | match goal with
+      | |- context [bind ?r _] =>
+        lazymatch r with context [blank] => fail | context [bind] => fail | context [if _ then _ else _] => fail
+                       | _ => destruct r eqn:? end
+      end
+    | reflexivity
+    | solve [congruence] ].
+
+Lemma blank_unique_reset x s a : ~ mentions x a -> unique_reset (blank x s) a = rmap (blank x) (unique_reset s a).
+Proof. intros N. unfold unique_reset. bl. Qed.
+
+Lemma blank_weak_reset x s i : i <> x -> weak_reset (blank x s) i = rmap (blank x) (weak_reset s i).
+Proof. intros N. unfold weak_reset. bl. Qed.
+
+Lemma not_mentions_data x d : ~ mentions x (AData d).
+Proof. intros H. discriminate. Qed.
+Lemma not_mentions_slot x i : i <> x -> ~ mentions x (ASlot i).
+Proof. intros N H. injection H as ->. auto. Qed.
+
+Ltac bl2 :=
+  repeat first
+    [ rewrite blank_unique_reset by (first [assumption|apply not_mentions_data|apply not_mentions_slot; assumption])
+    | rewrite blank_weak_reset by assumption
+    | rewrite blank_rd_up by (first [assumption|apply not_mentions_data|apply not_mentions_slot; assumption])
+    | rewrite blank_wr_up by (first [assumption|apply not_mentions_data|apply not_mentions_slot; assumption])
+    | rewrite blank_unique_init by (first [assumption|apply not_mentions_data|apply not_mentions_slot; assumption])
+    | bl ].
+
+Lemma blank_shared_reset x s i : i <> x -> shared_reset (blank x s) i = rmap (blank x) (shared_reset s i).
+Proof. intros N. unfold shared_reset. bl2. Qed.
+
+Section Loc.
+  Variable ok : nat -> N -> bool.
+
+  Lemma blank_unique_alloc x s a sz cb :
+    ~ mentions x a -> unique_alloc ok (blank x s) a sz cb = rmap (blank x) (unique_alloc ok s a sz cb).
+  Proof. intros N. unfold unique_alloc. bl2. Qed.
+
+  Lemma blank_unique_get x s a : ~ mentions x a -> unique_get (blank x s) a = unique_get s a.
+  Proof. intros N. unfold unique_get. bl2. Qed.
+
+  Lemma blank_shared_alloc x s i sz cb :
+    i <> x -> shared_alloc ok (blank x s) i sz cb = rmap (blank x) (shared_alloc ok s i sz cb).
+  Proof.
+    intros N. unfold shared_alloc. rewrite blank_shared_reset by auto. rewrite bind_rmap.
+    destruct (shared_reset s i) as [s1| |]; cbn [bind rmap]; auto.
+    destruct (0 <? sz); cbn [rmap]; auto.
+    destruct (do_malloc ok s1 DATA_SZ) as (s2 & [d|]) eqn:M; rewrite (blank_do_malloc' ok x s1 _ _ _ M); cbn [rmap]; auto.
+    rewrite blank_wr_data, blank_unique_alloc by apply not_mentions_data. rewrite bind_rmap.
+    destruct (unique_alloc ok _ (AData d) sz cb) as [s4| |]; cbn [bind rmap]; auto.
+    rewrite blank_unique_get by apply not_mentions_data.
+    destruct (unique_get s4 (AData d)) as [[m|]| |]; cbn [bind rmap]; auto;
+      rewrite ?blank_wr_gp, ?blank_do_free by auto; reflexivity.
+  Qed.
+End Loc.
+
+Lemma blank_shared_unique x s i : i <> x -> shared_unique (blank x s) i = shared_unique s i.
+Proof. intros N. unfold shared_unique. bl2. Qed.
+Lemma blank_shared_get x s i : i <> x -> shared_get (blank x s) i = shared_get s i.
+Proof. intros N. unfold shared_get. bl2. Qed.
+
+Lemma blank_shared_share x s e n :
+  e <> x -> n <> x -> shared_share (blank x s) e n = rmap (blank x) (shared_share s e n).
+Proof.
+  intros Ne Nn. unfold shared_share. rewrite blank_shared_reset by auto. rewrite bind_rmap.
+  destruct (shared_reset s n) as [s1| |]; cbn [bind rmap]; auto. bl2.
+Qed.
+
+Lemma blank_gp_swap x s a b : a <> x -> b <> x -> gp_swap (blank x s) a b = rmap (blank x) (gp_swap s a b).
+Proof. intros Na Nb. unfold gp_swap. bl2. Qed.
+
+Lemma blank_weak_from x s w sp :
+  w <> x -> sp <> x -> weak_from (blank x s) w sp = rmap (blank x) (weak_from s w sp).
+Proof.
+  intros Nw Ns. unfold weak_from. rewrite blank_weak_reset by auto. rewrite bind_rmap.
+  destruct (weak_reset s w) as [s1| |]; cbn [bind rmap]; auto. bl2.
+Qed.
+
+Lemma blank_weak_lock x s w sp :
+  w <> x -> sp <> x -> weak_lock (blank x s) w sp = rmap (blank x) (weak_lock s w sp).
+Proof.
+  intros Nw Ns. unfold weak_lock. rewrite blank_shared_reset by auto. rewrite bind_rmap.
+  destruct (shared_reset s sp) as [s1| |]; cbn [bind rmap]; auto. bl2.
+Qed.
+
+Lemma blank_unique_swap x s u v :
+  u <> x -> v <> x -> unique_swap (blank x s) (ASlot u) (ASlot v) = rmap (blank x) (unique_swap s (ASlot u) (ASlot v)).
+Proof. intros Nu Nv. unfold unique_swap. bl2. Qed.
+
+Lemma blank_unique_release x s u :
+  u <> x -> unique_release (blank x s) (ASlot u) =
+            rmap (fun r => (blank x (fst (fst r)), snd (fst r), snd r)) (unique_release s (ASlot u)).
+Proof. intros Nu. unfold unique_release. bl2. Qed.
+
+(** ** array functions *)
+Lemma blank_off_at x s a : a <> x -> off_at (blank x s) a = off_at s a.
+Proof. intros N. unfold off_at. rewrite blank_nth; auto. Qed.
+Lemma blank_len_at x s a : a <> x -> len_at (blank x s) a = len_at s a.
+Proof. intros N. unfold len_at. rewrite blank_nth; auto. Qed.
+Lemma blank_set_offlen x s a off len : a <> x -> set_offlen (blank x s) a off len = blank x (set_offlen s a off len).
+Proof.
+  intros N. unfold set_offlen. rewrite blank_nth by auto. destruct (nth_error (objs s) a); auto.
+  apply blank_set_objs_upd; auto.
+Qed.
+Lemma blank_rd_desc x s m : rd_desc (blank x s) m = rd_desc s m.
+Proof. reflexivity. Qed.
+Lemma blank_wr_desc x s m d : wr_desc (blank x s) m d = blank x (wr_desc s m d).
+Proof. reflexivity. Qed.
+Lemma blank_loc_inside x s l sz : loc_inside (blank x s) l sz = loc_inside s l sz.
+Proof. reflexivity. Qed.
+
+Ltac bl3 :=
+  repeat first
+    [ rewrite blank_shared_reset by assumption
+    | rewrite blank_shared_get by assumption
+    | rewrite blank_shared_unique by assumption
+    | rewrite blank_shared_share by assumption
+    | rewrite blank_off_at by assumption
+    | rewrite blank_len_at by assumption
+    | rewrite blank_set_offlen by assumption
+    | rewrite blank_rd_desc
+    | rewrite blank_wr_desc
+    | rewrite blank_loc_inside
+    | bl2 ].
+
+Lemma blank_array_reset x s a : a <> x -> array_reset (blank x s) a = rmap (blank x) (array_reset s a).
+Proof. intros N. unfold array_reset. bl3. Qed.
+
+Section LocA.
+  Variable ok : nat -> N -> bool.
+  Variable v0 : bool.
+
+  Lemma blank_array_alloc x s a nm sz :
+    a <> x -> array_alloc ok v0 (blank x s) a nm sz = rmap (blank x) (array_alloc ok v0 s a nm sz).
+  Proof.
+    intros N. unfold array_alloc.
+    assert (R : (if v0 then shared_reset (blank x s) a else array_reset (blank x s) a) =
+                rmap (blank x) (if v0 then shared_reset s a else array_reset s a)).
+    { destruct v0; [apply blank_shared_reset|apply blank_array_reset]; auto. }
+    rewrite R, bind_rmap. destruct (if v0 then shared_reset s a else array_reset s a) as [s1| |]; cbn [bind rmap]; auto.
+    destruct (negb v0 && negb (sz =? 0) && ((MAX64 - HDR) / sz <? nm)); cbn [rmap]; auto.
+    rewrite (blank_shared_alloc ok) by auto. rewrite bind_rmap.
+    destruct (shared_alloc ok s1 a _ None) as [s2| |]; cbn [bind rmap]; auto. bl3.
+  Qed.
+
+  Lemma blank_array_set x s a e nm sz :
+    a <> x -> array_set ok v0 (blank x s) a e nm sz = rmap (blank x) (array_set ok v0 s a e nm sz).
+  Proof.
+    intros N. unfold array_set. rewrite blank_array_alloc by auto. rewrite bind_rmap.
+    destruct (array_alloc ok v0 s a 0 sz) as [s1| |]; cbn [bind rmap]; auto. bl3.
+  Qed.
+
+  Lemma blank_array_slice x s a b e t :
+    a <> x -> t <> x -> array_slice v0 (blank x s) a b e t = rmap (blank x) (array_slice v0 s a b e t).
+  Proof. intros Na Nt. unfold array_slice. bl3. Qed.
+End LocA.
+
+Lemma blank_array_release x s a :
+  a <> x -> array_release (blank x s) a = rmap (fun r => (blank x (fst r), snd r)) (array_release s a).
+Proof.
+  intros N. unfold array_release. rewrite blank_shared_get by auto.
+  destruct (shared_get s a) as [[m|]| |]; cbn [bind rmap]; auto.
+  rewrite blank_rd_desc. destruct (rd_desc s m) as [d| |]; cbn [bind rmap]; auto.
+  destruct (dbuf d); cbn [rmap]; auto. rewrite blank_shared_unique by auto.
+  destruct (shared_unique s a) as [[|]| |]; cbn [bind rmap]; auto.
+  rewrite blank_array_reset by auto. rewrite bind_rmap. destruct (array_reset s a); reflexivity.
+Qed.
+
+Lemma blank_array_data x s a : a <> x -> array_data (blank x s) a = array_data s a.
+Proof. intros N. unfold array_data. bl3. Qed.
+Lemma blank_array_at x s a i : a <> x -> array_at (blank x s) a i = array_at s a i.
+Proof. intros N. unfold array_at. bl3. Qed.
+Lemma blank_array_unslice x s sl a :
+  sl <> x -> a <> x -> array_unslice (blank x s) sl a = rmap (blank x) (array_unslice s sl a).
+Proof. intros Ns Na. unfold array_unslice. bl3. Qed.
+
+(** ** the scripted calls *)
+Definition mslots (o : mop) : list nat :=
+  match o with
+  | UInit u | UAlloc u _ _ | UGet u | URelease u | UReset u => [u]
+  | USwap u v => [u; v]
+  | SInit x | SAlloc x _ _ | SGet x | SUnique x | SReset x => [x]
+  | SShare e n => [e; n]
+  | SSwap a b | WSwap a b => [a; b]
+  | WInit w | WReset w => [w]
+  | WFrom w x | WLock w x => [w; x]
+  | StrayCopy a b => [a; b]
+  end.
+Definition aslots (o : aop) : list nat :=
+  match o with
+  | VInit a | VAlloc a _ _ | VSet a _ _ _ | VRelease a | VData a | VAt a _ | VSize a | VReset a => [a]
+  | VSlice a _ _ t => [a; t]
+  | VUnslice sl a => [sl; a]
+  end.
+Definition slots (o : op) : list nat := match o with OM m => mslots m | OA a => aslots a end.
+
+Definition omap (f : st -> st) (r : outcome st) : outcome st :=
+  match r with Done s out => Done (f s) out | Abort => Abort | Fault => Fault | Precond => Precond end.
+
+Lemma blank_has_kind x s i k : i <> x -> has_kind (blank x s) i k = has_kind s i k.
+Proof. intros N. unfold has_kind, kind_at. rewrite blank_nth; auto. Qed.
+Lemma blank_disposable x s i : i <> x -> disposable (blank x s) i = disposable s i.
+Proof. intros N. unfold disposable, wfb, ptr_at. rewrite blank_nth; auto. Qed.
+
+Lemma of_res_rmap (f : st -> st) (r : res st) (k : st -> outcome st) :
+  (forall a, k (f a) = omap f (k a)) -> of_res (rmap f r) k = omap f (of_res r k).
+Proof. intros H. destruct r; cbn; auto. Qed.
+
+Section LocStep.
+  Variable ok : nat -> N -> bool.
+  Variable v0 : bool.
+
+  Ltac nin H := cbn [In mslots aslots] in H;
+    repeat match goal with
+    | H : ~ (_ \/ _) |- _ => apply Decidable.not_or in H; destruct H
+    end.
+
+  Ltac neq := first [assumption | (intros ->; tauto) | (intros <-; tauto) | auto].
+
+  Lemma blank_mstep x s o : ~ In x (mslots o) -> mstep ok (blank x s) o = omap (blank x) (mstep ok s o).
+  Proof.
+    intros N. unfold mstep. destruct o; cbn [In mslots] in N;
+      repeat match goal with
+      | H : ~ (_ \/ _) |- _ => apply Decidable.not_or in H; destruct H
+      end;
+      repeat match goal with H : ?a <> x |- _ => fail | H : ~ (?a = x) |- _ => change (a <> x) in H end;
+      cbn [mdom].
+    all: rewrite ?blank_has_kind, ?blank_disposable by auto.
+    all: try (rewrite !blank_nth by auto).
+    all: try match goal with |- context [match nth_error (objs ?st) ?a with Some _ => _ | None => _ end] =>
+               destruct (nth_error (objs st) a) eqn:? end.
+    all: try match goal with |- context [match nth_error (objs ?st) ?a with Some _ => _ | None => _ end] =>
+               destruct (nth_error (objs st) a) eqn:? end.
+    all: rewrite ?blank_disposable by auto.
+    all: match goal with |- (if ?c then _ else _) = _ => destruct c; [|reflexivity] end; cbn [mexec].
+    - rewrite blank_unique_init by (apply not_mentions_slot; auto). reflexivity.
+    - rewrite (blank_unique_alloc ok) by (apply not_mentions_slot; auto). apply of_res_rmap. reflexivity.
+    - rewrite blank_unique_get by (apply not_mentions_slot; auto). destruct (unique_get s (ASlot u)); reflexivity.
+    - rewrite blank_unique_release by auto. destruct (unique_release s (ASlot u)) as [((s1 & p) & c)| |]; cbn; auto.
+      rewrite blank_do_free. reflexivity.
+    - rewrite blank_unique_swap by auto. apply of_res_rmap. reflexivity.
+    - rewrite blank_unique_reset by (apply not_mentions_slot; auto). apply of_res_rmap. reflexivity.
+    - unfold obj_reinit. rewrite blank_nth by auto. destruct (nth_error (objs s) s0); auto.
+      rewrite blank_set_objs_upd by auto. reflexivity.
+    - rewrite (blank_shared_alloc ok) by auto. apply of_res_rmap. reflexivity.
+    - rewrite blank_shared_get by auto. destruct (shared_get s s0); reflexivity.
+    - rewrite blank_shared_unique by auto. destruct (shared_unique s s0); reflexivity.
+    - rewrite blank_shared_share by auto. apply of_res_rmap. reflexivity.
+    - rewrite blank_gp_swap by auto. apply of_res_rmap. reflexivity.
+    - rewrite blank_shared_reset by auto. apply of_res_rmap. reflexivity.
+    - unfold obj_reinit. rewrite blank_nth by auto. destruct (nth_error (objs s) w); auto.
+      rewrite blank_set_objs_upd by auto. reflexivity.
+    - rewrite blank_weak_from by auto. apply of_res_rmap. reflexivity.
+    - rewrite blank_weak_lock by auto. apply of_res_rmap. reflexivity.
+    - rewrite blank_gp_swap by auto. apply of_res_rmap. reflexivity.
+    - rewrite blank_weak_reset by auto. apply of_res_rmap. reflexivity.
+    - unfold stray_copy; rewrite blank_nth by auto; destruct (nth_error (objs s) src); [rewrite blank_set_objs_upd by auto|]; reflexivity.
+    - unfold stray_copy; rewrite blank_nth by auto; destruct (nth_error (objs s) src); [rewrite blank_set_objs_upd by auto|]; reflexivity.
+    - unfold stray_copy; rewrite blank_nth by auto; destruct (nth_error (objs s) src); [rewrite blank_set_objs_upd by auto|]; reflexivity.
+  Qed.
+
+  Lemma blank_astep x s o : ~ In x (aslots o) -> astep ok v0 (blank x s) o = omap (blank x) (astep ok v0 s o).
+  Proof.
+    intros N. unfold astep. destruct o; cbn [In aslots] in N;
+      repeat match goal with
+      | H : ~ (_ \/ _) |- _ => apply Decidable.not_or in H; destruct H
+      end;
+      cbn [adom].
+    all: rewrite ?blank_has_kind, ?blank_disposable by auto.
+    all: change (exts (blank x s)) with (exts s).
+    all: match goal with |- (if ?c then _ else _) = _ => destruct c; [|reflexivity] end; cbn [aexec].
+    - unfold obj_reinit. rewrite blank_nth by auto. destruct (nth_error (objs s) a); auto.
+      rewrite blank_set_objs_upd by auto. reflexivity.
+    - rewrite (blank_array_alloc ok v0) by auto. apply of_res_rmap. reflexivity.
+    - rewrite (blank_array_set ok v0) by auto. apply of_res_rmap. reflexivity.
+    - rewrite blank_array_release by auto. destruct (array_release s a) as [(s1 & r)| |]; reflexivity.
+    - rewrite blank_array_data by auto. destruct (array_data s a); reflexivity.
+    - rewrite blank_array_at by auto. destruct (array_at s a i); reflexivity.
+    - rewrite blank_len_at by auto. reflexivity.
+    - rewrite (blank_array_slice v0) by auto. apply of_res_rmap. reflexivity.
+    - rewrite blank_array_unslice by auto. apply of_res_rmap. reflexivity.
+    - rewrite blank_array_reset by auto. apply of_res_rmap. reflexivity.
+  Qed.
+
+  (** a call that does not mention slot [x] neither reads nor writes it *)
+  Theorem step_local x s o : ~ In x (slots o) -> step ok v0 (blank x s) o = omap (blank x) (step ok v0 s o).
+  Proof. destruct o; cbn [step slots]; [apply blank_mstep|apply blank_astep]. Qed.
+
+  Lemma blank_blank_upd x s o : blank x (set_objs s (upd (objs s) x o)) = blank x s.
+  Proof. unfold blank, set_objs. cbn [al objs datas descs exts log]. rewrite upd_upd. reflexivity. Qed.
+
+  (** stray_copy_frame: a stray copy into [dst] changes no call that does not
+      mention [dst]: same outcome, same results, same final state up to the
+      contents of slot [dst] *)
+  Theorem stray_copy_frame s src dst o :
+    ~ In dst (slots o) ->
+    omap (blank dst) (step ok v0 (stray_copy s src dst) o) = omap (blank dst) (step ok v0 s o).
+  Proof.
+    intros N. rewrite <- !step_local by auto. unfold stray_copy.
+    destruct (nth_error (objs s) src); auto. rewrite blank_blank_upd. reflexivity.
+  Qed.
+End LocStep.
